@@ -17,7 +17,9 @@ case = {"kind":  "build" | "parse" | "newline" | "edit",
         "nl":    [item, record, component, position]   (newline: where a "\\n" is injected)
         "ops":   [op, ...]                  (build, parse: ordinary mapping operations applied to the
                                              paragraph between building / parsing it and dumping it)
-        "start": "build" | "parse", "steps": [step, ...]   (edit)}
+        "start": "build" | "parse", "steps": [step, ...]   (edit)
+        "others": [{"how": "parse" | "build", "cls":, "dak":, "items":}, ...]   (edit, build; optional: up to four
+                                             OTHER paragraphs, any class - the bystanders, see below)}
 
   op       ["sort"] | ["sortkey", "lower"|"reversed"|"length"] | ["first", i] | ["last", i] |
            ["before", i, j] | ["after", i, j] | ["copy"]: sort_fields(), sort_fields(key=...),
@@ -66,12 +68,27 @@ case = {"kind":  "build" | "parse" | "newline" | "edit",
            step the dump must be the one of a paragraph that holds just the current content in the
            current configuration
 
-Empty record lists ("any list of whitespace-free records" includes the list of none): generated
-only in the build direction and in edit steps (the harness-written texts of the parse direction
-always hold >= 1 record per field).  Demanded: dump() does not raise in any class / configuration,
-the text is one paragraph (no empty line) with the bare header 'Field:', every OTHER field is laid
-out as usual and re-parses to its records, the empty field re-parses to zero records, and the
-re-parsed paragraph dumps to the same text again.
+  bystanders   a paragraph shows exactly ITS OWN records - those of its text / of what was assigned to it -
+           whatever was done before, or is done meanwhile, to another paragraph through the objects that one
+           hands out.  Every edit case has a twin (the same text parsed / the same assignments made once
+           more), and "others" adds paragraphs of the same or another class whose structured fields are
+           empty, filled or absent.  Each of them exists once BEFORE the first step (a second live object)
+           and is made once more AFTER every step (state left behind by earlier use); after every step all
+           of them are read (documented sub-field names, values, order, no phantom field) and dumped (usual
+           layout).  The edited paragraph itself is also read directly after every step, all of its fields,
+           not only through its dump.  A build case with "others" looks at them after the paragraph was
+           filled.  Violations found on a bystander carry the prefix "bystander:".  None of the other
+           paragraphs is ever touched by the harness, so this demands nothing beyond the statement's
+           'parsing exposes each line as a record' / 'built from any list ... re-parses to the same records'.
+
+Empty record lists ("any list of whitespace-free records" includes the list of none): in the build
+direction, in edit steps and - as the bare header 'Field:' with no line under it, which is what dump()
+writes for one - in the texts of the parse direction, of parsed edit cases and of bystanders, for
+every class, so that the empty lists the PARSER hands out are among the objects records are appended to /
+slice-assigned into.  Demanded: the field reads as a container of length 0, dump() does not raise in any
+class / configuration, the text is one paragraph (no empty line) with the bare header 'Field:', every
+OTHER field is laid out as usual and re-parses to its records, the empty field re-parses to zero records,
+and the re-parsed paragraph dumps to the same text again.
 
 A structured item lists its tokens in the documented sub-field order of DOC below; "single_line"
 (only for the *-Current fields of a pdiff Index) selects the one-record form written on the field's
@@ -88,8 +105,8 @@ from debian import deb822
 
 ID = "C12"
 LEVEL = "exploration"
-RULE = ("cases are (class x Release size_field_behavior, ordered list of structured fields with 1..4 "
-        "(build direction and edit steps: 0..4) "
+RULE = ("cases are (class x Release size_field_behavior, ordered list of structured fields with 0..4 "
+        "(newline cases: 1..4) "
         "records of whitespace-free tokens each and 0..3 ordinary fields, direction build|parse); "
         "enumerated: every subset of the four structured fields of Dsc, Changes, BuildInfo, "
         "Release(apt-ftparchive), Release(dak) and of the 14 fields of PdiffIndex (quick: subsets "
@@ -99,13 +116,20 @@ RULE = ("cases are (class x Release size_field_behavior, ordered list of structu
         "assignment order, tokens from a 70-token pool of format meta-characters and non-ASCII "
         "letters, sizes of 1..18 digits, harness padding 0/16/20, newline injection; edit histories "
         "(1..3 assignments / in-place list changes / deletions / mapping operations on one object, a "
-        "dump after each). Mapping operations (sort_fields() with and without key=, order_first / "
+        "dump and a direct read of every field after each; start: built, or parsed from a text that may hold "
+        "fields without records). Bystanders: every edit history is watched by the twin of the edited paragraph "
+        "(same text / assignments) and, in 2 of 5 generated histories, by 1..2 more paragraphs (3 in 8 of the "
+        "edited class, else any class / configuration; any non-empty subset of fields present, any subset of them "
+        "without records; parsed, a third built), each alive before the first step AND made anew after every step, "
+        "each read and dumped after every step: it must show exactly its own records; enumerated source "
+        "bystanders-of-handed-out-objects (see its description). Mapping operations (sort_fields() with and without key=, order_first / "
         "order_last / order_before / order_after, copy()) are also an option of build and parse cases "
         "(0..3 of them between building / parsing and the dump; afterwards the dump must hold the same "
         "field names in any order, each laid out as usual) and have an enumerated source: every "
         "non-empty subset of the four-field classes, PdiffIndex all / all-but-one / one field, x "
-        "{build, parse} x 11 operation lists. Empty record lists: one field of a third of the "
-        "generated build cases, a fifth of the items of edit steps; enumerated: every non-empty subset "
+        "{build, parse} x 11 operation lists. Empty record lists: one field (one in twelve: two) of a third of the "
+        "generated build AND parse cases (hence of the paragraphs edit histories start from), a fifth of the items of "
+        "edit steps; enumerated: every non-empty subset "
         "of the four-field classes x each present field (and all of them) empty, PdiffIndex all / one "
         "field, and edit histories that empty each field by assignment / in place after build / parse. "
         "Parse direction additionally: layout (bare 'Field:' header + one line per record, or the "
@@ -134,9 +158,16 @@ ASSUMPTIONS = [
     "sub-field names and column order are the table in the module docstring of deb822.py (copied "
     "into DOC); BuildInfo is not listed there, its names are those of deb-buildinfo(5)'s "
     "Checksums-* fields as spelt by the class at the pinned commit",
-    "record lists hold 0..4 records (more after edit step append); the empty list is generated only where "
-    "a paragraph is built or edited, every class / configuration must dump it, re-parse it to zero records "
-    "and dump that again (both former deviations are fixed in the tree under test, see replays/C12)",
+    "record lists hold 0..4 records (more after edit step append); the empty list is generated where a paragraph "
+    "is built, edited or parsed (text: the bare header 'Field:', dump()'s own spelling of it); every class / "
+    "configuration must read it as zero records, dump it, re-parse it to zero records and dump that again "
+    "(both former deviations are fixed in the tree under test, see replays/C12)",
+    "bystanders: paragraphs the harness never touches (a twin of the edited one, paragraphs of the same and of "
+    "other classes with empty / filled / absent structured fields; alive during the edits, or made after them "
+    "in the same process) must read and dump as what their own text / assignments say; this is the statement's "
+    "parse / round-trip clause applied to a process in which other paragraphs were used before, nothing more. "
+    "Cases do not depend on each other, but state a defective tree leaks from one case into the next of the "
+    "same worker process is visible to the later case (only ever as a violation of that later case)",
     "Release configuration: the two documented values are 'apt-ftparchive' (documented default) and 'dak'; "
     "set_size_field_behavior(v) and assigning the attribute are the two public routes and must be "
     "indistinguishable; any other string must be refused with ValueError (what the class raises, and the "
@@ -165,11 +196,11 @@ EXHAUSTIVE = {
     "quick": "all 16 subsets of the structured fields of Dsc, Changes, BuildInfo, Release x {apt-ftparchive, dak}; "
              "all subsets of size <=2 or >=12 of the 14 PdiffIndex fields; x 3 record sets x {build, parse}; "
              "parse-layouts-and-field-filters, mapping-operations, empty-record-lists, release-configuration-routes, "
-             "records-through-handed-out-objects: see those sources' descriptions",
+             "records-through-handed-out-objects, bystanders-of-handed-out-objects: see those sources' descriptions",
     "thorough": "all 16 subsets of the structured fields of Dsc, Changes, BuildInfo, Release x {apt-ftparchive, dak}; "
                 "all 2^14 subsets of the PdiffIndex fields; x 3 record sets x {build, parse}; "
                 "parse-layouts-and-field-filters, mapping-operations, empty-record-lists, release-configuration-routes, "
-                "records-through-handed-out-objects: see those sources' descriptions",
+                "records-through-handed-out-objects, bystanders-of-handed-out-objects: see those sources' descriptions",
 }
 BUDGET = {"quick": 300, "thorough": 1500}
 
@@ -245,6 +276,7 @@ SORT_KEYS = {"lower": lambda k: k.lower(), "reversed": lambda k: k.lower()[::-1]
 MAPOPS = ("sort", "sortkey", "first", "last", "before", "after", "copy")
 
 
+OTHER_KEYS = ("how", "cls", "dak", "items")
 CFG_ROUTES = ("attr", "method")
 CFG_VALUES = ("apt-ftparchive", "dak")          # the two documented values; the first is the documented default
 FILLS = ("assign", "append", "split", "setsub")
@@ -321,8 +353,16 @@ def valid_case(case):
         return False
     sub = SUBFIELDS[case["cls"]]
     seen = set()
-    # an empty record list only where the paragraph is built (see the module docstring)
-    min_records = 0 if (case["kind"] == "build" or (case["kind"] == "edit" and case["start"] == "build")) else 1
+    # an empty record list ('Field:' with nothing under it) everywhere but where a newline is to be injected
+    min_records = 1 if case["kind"] == "newline" else 0
+    others = case.get("others", [])
+    if not isinstance(others, list) or len(others) > 4 or (others and case["kind"] not in ("build", "edit")):
+        return False
+    for ot in others:
+        if not isinstance(ot, dict) or ot.get("how") not in ("build", "parse") or set(ot) - set(OTHER_KEYS) or \
+                not isinstance(ot.get("dak", False), bool) or \
+                not valid_case({"kind": ot["how"], "cls": ot.get("cls"), "items": ot.get("items")}):
+            return False
     if case["kind"] in ("build", "parse"):
         ops = case.get("ops", [])
         if not isinstance(ops, list) or not all(valid_op(op) for op in ops):
@@ -726,6 +766,66 @@ def wanted_view(case):
     return dict(case, items=[it for it in case["items"] if it[1] in want])
 
 
+class Bystanders(object):
+    """The other paragraphs of a case: each one is a text (or a list of assignments) of its own and
+    must show exactly its own records whatever is done to ANOTHER paragraph through the objects
+    that one hands out - the one that was alive all the time, and one made afresh afterwards."""
+
+    def __init__(self, case, labels):
+        self.views = []
+        self.labels = labels
+        if case["kind"] == "edit":
+            # the twin: the same text / the same assignments once more
+            twin = dict(case, kind=case["start"])
+            twin.pop("others", None)
+            self.views.append(("twin", twin))
+        for ot in case.get("others", []):
+            self.views.append(("other", {"kind": ot["how"], "cls": ot["cls"], "dak": bool(ot.get("dak")),
+                                        "items": ot["items"], "pad": 0}))
+        self.live = []
+        for role, view in self.views:
+            self.live.append(self.spawn(view))
+            same = view["cls"] == case["cls"]
+            labels.add("bystander:%s-%s" % ("same-class" if same else "other-class", view["kind"]))
+            sitems = [it for it in view["items"] if it[0] == "s"]
+            if has_empty(view["items"]):
+                labels.add("bystander:with-empty-field")
+            if any(it[2] for it in sitems):
+                labels.add("bystander:with-filled-field")
+            if len(sitems) < len(SUBFIELDS[view["cls"]]):
+                labels.add("bystander:with-absent-field")
+        self.inspect_all("before the first paragraph is touched", False)
+
+    @staticmethod
+    def spawn(view):
+        if view["kind"] == "build":
+            _cls, o = make_instance(view)
+            assign_items(o, view, view["items"])
+        else:
+            o = getattr(deb822, view["cls"])(harness_text(view))
+            configure(o, view, None, "second paragraph")
+        return o
+
+    @staticmethod
+    def inspect(o, view, phase, blame):
+        try:
+            compare_records(o, view, phase)
+            check_layout(dump_or_violation(o, view, phase), view, phase)
+        except Violation as v:
+            if not blame:
+                raise
+            raise Violation("bystander:" + v.sig, v.msg)
+
+    def inspect_all(self, what, blame=True):
+        """Every other paragraph that is alive, and every one made anew now."""
+        for (role, view), o in zip(self.views, self.live):
+            who = "the same %s once more" % view["cls"] if role == "twin" else "another paragraph (%s)" % config_tag(view)
+            self.inspect(o, view, "%s, made before, read %s" % (who, what), blame)
+            if blame:
+                self.inspect(self.spawn(view), view, "%s, %s %s" % (
+                    who, "parsed" if view["kind"] == "parse" else "built", what), blame)
+
+
 def labels_of(case):
     sub = SUBFIELDS[case["cls"]]
     labels = set(["kind:" + case["kind"], "class:" + config_tag(case)])
@@ -810,8 +910,11 @@ def check(case):
 
     if kind == "build":
         cls, o = make_instance(case, labels)
+        by = Bystanders(case, labels) if case.get("others") else None
         assign_items(o, case, case["items"])
         labels.add("fill:" + case.get("fill", "assign"))
+        if by:
+            by.inspect_all("after the first paragraph was filled (%s)" % case.get("fill", "assign"))
         o, nops = apply_ops(o, case, case["items"], labels)
         phase = "built, %d mapping operations" % nops if nops else "built"
         nontrivial = nontrivial or nops > 0
@@ -877,9 +980,11 @@ def check(case):
             o = cls(harness_text(case))
             configure(o, case, labels, "parsed")
         cur = [list(it) for it in case["items"]]
+        compare_records(o, case, "before edits")
         text = dump_or_violation(o, case, "before edits", labels)
         if text is not None:
             check_layout(text, dict(case, items=cur), "before edits")
+        by = Bystanders(case, labels)
         nsteps = 0
         loose = False       # a mapping operation was applied and no dump has shown the new order yet
         for step in case["steps"]:
@@ -959,6 +1064,8 @@ def check(case):
             now = dict(case, items=cur)
             phase = "after edit %d (%s)" % (nsteps, op)
             loose = loose or op in MAPOPS
+            # the paragraph itself, read directly: the field that was changed and all the others
+            compare_records(o, now, phase + ", read directly")
             text = dump_or_violation(o, now, phase, labels)
             if text is None:
                 continue
@@ -968,6 +1075,8 @@ def check(case):
             now = dict(case, items=cur)
             o2 = cls(text)
             compare_records(o2, now, phase + ", re-parsed")
+            # ... and everybody else
+            by.inspect_all(phase)
         if nsteps:
             labels.add("edit:steps-%d" % min(nsteps, 3))
         nontrivial = nontrivial or nsteps > 0
@@ -1299,6 +1408,72 @@ FILL_DESC = ("records through what the paragraph hands out: every non-empty subs
              "fields append two records and / or replace one sub-field (hash, size - up to 17 digits -, third, fourth column)")
 
 
+ALL_CONFIGS = FOUR + (("PdiffIndex", False),)
+
+
+def enum_bystander_cases():
+    """Records filled in / changed through what ONE paragraph hands out; every other field of that
+    paragraph and every other paragraph (alive before, made afterwards; same class, other class;
+    fields empty, filled, absent) must show exactly its own records."""
+    def witnesses(clsname, dak, k):
+        """Same class: every field present and empty; the class k places further on: fields empty /
+        filled / absent in turn (rotated by k), parsed, and the same thing built."""
+        top = (1 << len(DOC[clsname])) - 1
+        oc, od = ALL_CONFIGS[(ALL_CONFIGS.index((clsname, dak)) + 1 + k % (len(ALL_CONFIGS) - 1)) % len(ALL_CONFIGS)]
+        n = len(DOC[oc])
+        present = sum(1 << i for i in range(n) if (i + k) % 3 != 2)
+        empty = sum(1 << i for i in range(n) if (i + k) % 3 == 0)
+        return [other_paragraph(clsname, dak, top, top if k % 2 == 0 else empty, 1, "parse"),
+                other_paragraph(oc, od, present, empty, 1, "build" if k % 4 == 3 else "parse")]
+
+    def gen():
+        k = 0
+        for clsname, dak in ALL_CONFIGS:
+            masks = range(1, 16) if clsname != "PdiffIndex" else pdiff_corner_masks()[:2] + pdiff_corner_masks()[15:]
+            for mask in masks:
+                base = enum_case(clsname, dak, mask, 1, "build")
+                more = enum_case(clsname, dak, mask, 2, "build")
+                spos = [i for i, it in enumerate(base["items"]) if it[0] == "s"]
+                targets = spos[:3] + spos[-1:] if len(spos) > 4 else spos
+                # which fields of the first paragraph are there without records: each one, all, none
+                for empty in [[i] for i in targets] + ([spos] if len(spos) > 1 else []) + [[]]:
+                    items = [it[:2] + [[], False] if i in empty else it for i, it in enumerate(base["items"])]
+                    for t in targets:
+                        if empty and len(empty) == 1 and t not in empty and t != targets[(targets.index(empty[0]) + 1)
+                                                                                         % len(targets)]:
+                            continue            # one empty field: through it and through one neighbour
+                        n = spos.index(t)
+                        add, put = ["append", more["items"][t]], ["inplace", more["items"][t]]
+                        if t in empty:
+                            seqs = [[add], [put], [add, ["setsub", n, 0, 1, "x", "8"]]]
+                        else:
+                            seqs = [[add], [["setsub", n, 1, n, "n\u00e9w", "123456"], ["inplace", items[t][:2] + [[], False]]]]
+                        for steps in seqs:
+                            for start in ("parse", "build"):
+                                k += 1
+                                yield {"kind": "edit", "cls": clsname, "dak": dak, "items": items, "pad": 0, "start": start,
+                                       "steps": steps, "others": witnesses(clsname, dak, k)}
+                    # ... and while a new paragraph is being filled
+                    if not empty:
+                        for fill in FILLS[1:]:
+                            k += 1
+                            yield dict(base, fill=fill, others=witnesses(clsname, dak, k))
+    return gen
+
+
+BYSTANDER_DESC = ("bystanders: Dsc, Changes, BuildInfo, Release x {apt-ftparchive, dak} with every non-empty subset of the "
+                  "structured fields, PdiffIndex with all / all-but-one / one field, three records per field; x which fields "
+                  "are there WITHOUT records (each one, all of them, none) x {parsed from text, built}; then through the "
+                  "list the paragraph hands out for a field that is empty: two records appended | list[:] = two records | "
+                  "appended and a sub-field replaced; for a field that is filled: appended | a sub-field replaced and the "
+                  "list emptied in place. After every step: the paragraph read directly and dumped, its twin (same text / "
+                  "assignments; one made before, one made now), a paragraph of the same class with all fields empty (or "
+                  "empty / filled / absent in turn) and one of another class (every ordered pair of classes / configurations "
+                  "occurs; fields empty / filled / absent in turn; parsed, every fourth built) - before and made anew - "
+                  "must each show and dump exactly their own records. Also: the three ways of filling a new paragraph "
+                  "through handed-out objects, with the same witnesses")
+
+
 LAYOUTS_DESC = ("parse direction: every enumerated subset (three- and two-record sets) with all fields folded; "
                 "fields=: Dsc, Changes, BuildInfo, Release x {apt-ftparchive, dak}: every subset present x every "
                 "sub-subset wanted x every subset of the two ordinary fields wanted x {constructor, iter_paragraphs} "
@@ -1390,10 +1565,14 @@ def gen_case(draw):
             case["dak"] = effective_dak(case)
     if kind == "build":
         case["fill"] = draw(st.sampled_from(FILLS + ("assign",)))
-        # a third of the built paragraphs hold one multi-line field with no records at all
+    if kind in ("build", "parse"):
+        # a third of the built / parsed paragraphs hold one multi-line field with no records at all
+        # (in a text: the bare header 'Field:' with no line under it), one in twelve two of them
         e = draw(st.integers(0, 3 * max(len(items), 1) - 1))
         if e >= 2 * len(items) and items[e - 2 * len(items)][0] == "s":
             items[e - 2 * len(items)][2:] = [[], False]
+            if e % 4 == 0 and items[e % len(items)][0] == "s":
+                items[e % len(items)][2:] = [[], False]
     if kind in ("build", "parse"):
         # ordinary mapping operations between building / parsing and the dump (none, mostly)
         case["ops"] = [decode_op(draw(st.integers(0, NOPCODES - 1)))
@@ -1435,6 +1614,32 @@ def gen_item(draw, clsname, present):
     return ["s", field, recs, single]
 
 
+def other_paragraph(clsname, dak, mask, empty, variant, how):
+    """A bystander: the fields of ``mask`` present, those also in ``empty`` without records, an
+    ordinary field first (and, variant 1, one last); records from the deterministic sets."""
+    items = enum_case(clsname, dak, mask, variant, "build")["items"]
+    names = [f for f, _ in DOC[clsname]]
+    items = [it[:2] + [[], False] if it[0] == "s" and empty >> names.index(it[1]) & 1 else it for it in items]
+    return {"how": how, "cls": clsname, "dak": dak, "items": items}
+
+
+@st.composite
+def gen_other(draw, clsname, dak):
+    """Mostly of the class that is being edited (3 in 8), else any class / configuration."""
+    c = draw(st.integers(0, 7))
+    if c < 5:
+        clsname, dak = FOUR[c]
+    elif c == 5:
+        clsname, dak = "PdiffIndex", False
+    top = (1 << len(DOC[clsname])) - 1
+    mask = draw(st.integers(1, top))
+    empty = draw(st.integers(0, top))
+    if draw(st.booleans()):
+        empty &= draw(st.integers(0, top))
+    v = draw(st.integers(0, 5))
+    return other_paragraph(clsname, dak, mask, empty, v % 3, "build" if v >= 4 else "parse")
+
+
 @st.composite
 def gen_edit_case(draw):
     base = draw(gen_case())
@@ -1461,10 +1666,14 @@ def gen_edit_case(draw):
         else:
             steps.append([op, draw(gen_item(base["cls"], present))])
     start = draw(st.sampled_from(["build", "parse"]))
-    if has_empty(base["items"]):
-        start = "build"                 # no text spells an empty record list
     case = {"kind": "edit", "cls": base["cls"], "dak": base["dak"], "items": base["items"],
             "start": start, "pad": 0, "steps": steps}
+    # 0..2 more paragraphs that must not notice any of this (the twin of the edited one is always there)
+    others = []
+    for _ in range(max(0, draw(st.integers(0, 4)) - 2)):
+        others.append(draw(gen_other(base["cls"], base["dak"])))
+    if others:
+        case["others"] = others
     for k in ("cfg", "fill"):
         if k in base:
             case[k] = base[k]
@@ -1479,6 +1688,7 @@ def sources(tier):
                 Enum("empty-record-lists", enum_empty_cases(), EMPTY_DESC),
                 Enum("release-configuration-routes", enum_config_cases(), CONFIG_DESC),
                 Enum("records-through-handed-out-objects", enum_fill_cases(), FILL_DESC),
+                Enum("bystanders-of-handed-out-objects", enum_bystander_cases(), BYSTANDER_DESC),
                 Hyp("records", gen_case(), 350, shards=8),
                 Hyp("edit-histories", gen_edit_case(), 250, shards=6)]
     return [Enum("field-subsets-all", enum_cases(True), EXHAUSTIVE["thorough"]),
@@ -1487,5 +1697,6 @@ def sources(tier):
             Enum("empty-record-lists", enum_empty_cases(), EMPTY_DESC),
             Enum("release-configuration-routes", enum_config_cases(), CONFIG_DESC),
             Enum("records-through-handed-out-objects", enum_fill_cases(), FILL_DESC),
+            Enum("bystanders-of-handed-out-objects", enum_bystander_cases(), BYSTANDER_DESC),
             Hyp("records", gen_case(), 5000, shards=16),
             Hyp("edit-histories", gen_edit_case(), 4000, shards=12)]
